@@ -330,8 +330,7 @@ def referenceField (depth : Nat) (f : Fields) : P (Fields × Bool) := do
   let _ ← fieldName (bs "REFERENCE") depth
   let number ← int
   let w := (itoaB number).length
-  -- `strings.Repeat(" ", 3-len(strconv.Itoa(number)))`
-  if w > 3 then panic
+  -- `strings.Repeat(" ", max(0, 3-len(strconv.Itoa(number))))` (761240c)
   let _ ← attempt (lit (sp (3 - w)))
   let info ← line
   let n := (← getS).rest.length
@@ -500,6 +499,7 @@ def recordLoop (length : Int) (depth : Nat) : Nat → Sub → P Sub
 def genbankParser (reg : Registry) : P (Record × Registry) := do
   let l ← locusParser
   clear
+  if l.length < 0 then fail            -- 9d67d52: "negative sequence length"
   if !isMolecule l.molecule then fail
   match asTopology l.topology with
   | none => fail
